@@ -15,8 +15,8 @@ import (
 	"strings"
 
 	"github.com/gopher-fleece/gleece/v2/core/arbitrators"
-	"github.com/gopher-fleece/gleece/v2/core/metadata"
 	"github.com/gopher-fleece/gleece/v2/core/arbitrators/caching"
+	"github.com/gopher-fleece/gleece/v2/core/metadata"
 	"github.com/gopher-fleece/gleece/v2/core/visitors/providers"
 	"github.com/gopher-fleece/gleece/v2/definitions"
 	"github.com/gopher-fleece/gleece/v2/graphs/symboldg"
